@@ -62,6 +62,13 @@ def register(reg):
                  ensures=['fn_spec(self) not in self.system.allobjects', FRAME],
                  loops={0: Loop(index='i', modifies=['allobjects'],
                                 invariant=['fn_spec(self) not in self.system.allobjects', FRAME])})
+    # System._remove (first half of duplicate handling): the same shape of recursion as _handle_reparenting_pre
+    FRAME_O = ("forall('Str', lambda k: implies(not k.startswith(fn_spec(o)), "
+               "self.allobjects.get(k) == old(self.allobjects).get(k)))")
+    reg.contract(M, 'System._remove', params={'o': 'Ref[Documentable]'}, requires=[ACYCLIC, KIDS],
+                 modifies=['allobjects'], raises={'KeyError': 'True'},
+                 ensures=['fn_spec(o) not in self.allobjects', FRAME_O],
+                 loops={0: Loop(index='i', modifies=['allobjects'], invariant=['fn_spec(o) not in self.allobjects', FRAME_O])})
     reg.contract(M, 'Documentable._handle_reparenting_post', requires=[ACYCLIC, KIDS2, SAMESYS, BELOW],
                  modifies=['allobjects'], raises={},
                  ensures=['self.system.allobjects[fn_spec(self)] == self', FRAME],
